@@ -212,10 +212,10 @@ def apiOp (op : String) (args : List String) : Option String :=
   | "FloatPath", [d] => do
     let d ← hexToBytes d
     let r := FP.parse d
-    -- for the slow path also: is the literal inside the scope of `C04.parse_correct` (at most 800 bytes, exact run)?
+    -- for the slow path also: is the literal inside the scope of `C04.parse_correct` (exact run)?
     if r.path == .slow || r.path == .slowRange then
       let ex := ((FP.Decimal.set (d.extract 0 r.n)).map FP.Decimal.exactRun).getD false
-      pure (r.path.name ++ (if ex && r.n ≤ 800 then "/exact-run" else if ex then "/exact-run-over-800B" else "/truncated-run"))
+      pure (r.path.name ++ (if ex then "/exact-run" else "/truncated-run"))
     else pure r.path.name
   | "getu4", [d] => do
     let d ← hexToBytes d
